@@ -34,20 +34,37 @@ FLOORS = {"quick": {k: 1 for k in [
     "audits", "lookups_readable", "lookups_blank", "calc_root_checks", "returned_hashes_checked", "from_db_checks",
     "cleared_to_initial", "default_blank", "default_nonblank", "ks_1", "ks_2", "ks_3", "ks_8", "ks_20", "ks_32",
     "op_set_new", "op_overwrite", "op_delete_present", "op_delete_absent", "bitpos_pairs",
-    "op_set_blank_default_nonblank", "op_set_blank_default_blank", "two_tree_interleavings"]}}
+    "op_set_blank_default_nonblank", "op_set_blank_default_blank", "two_tree_interleavings",
+    "reopened_through_from_db"]}}
 FLOORS["thorough"] = dict(FLOORS["quick"])
 
-DEFAULTS = [b"", b"", b"\x00" * 32, b"dflt"]
+DEFAULTS = [b"", b"", b"", b"\x00" * 32, b"dflt", b"D" * 64]
+
+
+
+def pattern_key(rnd, depth, near=None):
+    """Keys made of long runs of equal bits (all zeros, all ones, 0111..1, 1000..0, 0101.., a run
+    of ones of random length, everything-but-one-bit): XORs of such keys are long runs of ones,
+    which is where arithmetic on bit positions goes wrong.  With `near`, the key differs from
+    it by such a run."""
+    full = (1 << depth) - 1
+    pats = [0, full, full >> 1, 1 << (depth - 1), 1, full ^ 1, int("01" * (depth // 2), 2), int("10" * (depth // 2), 2),
+            (1 << rnd.randrange(1, depth + 1)) - 1, full ^ ((1 << rnd.randrange(0, depth)) - 1)]
+    p = rnd.choice(pats)
+    return (near ^ p) & full if near is not None and rnd.random() < 0.5 else p
 
 
 def gen_case(rnd, tier, ks=None):
     ks = ks or rnd.choice([1, 1, 2, 3, 8, 20, 32] if tier == "quick" else list(range(1, 33)))
     depth = ks * 8
     default = rnd.choice(DEFAULTS)
-    base = rnd.getrandbits(depth)
+    patterned = rnd.random() < 0.25
+    base = pattern_key(rnd, depth) if patterned else rnd.getrandbits(depth)
 
     def rk():
         r = rnd.random()
+        if patterned and r < 0.7:
+            return pattern_key(rnd, depth, near=base)
         if r < 0.25:
             return base
         if r < 0.7:
@@ -64,14 +81,15 @@ def gen_case(rnd, tier, ks=None):
             if rnd.random() < 0.1:
                 v = b""   # an explicitly blank value: reads as absent, whatever the default is
             else:
-                v = bytes([rnd.randrange(1, 256)]) * rnd.choice([1, 2, 31, 32, 33, 40])
+                # 64 bytes is the size of an interior node (two child hashes); 63/65 its neighbours
+                v = bytes([rnd.randrange(1, 256)]) * rnd.choice([1, 2, 31, 32, 33, 40, 63, 64, 64, 65, 300])
             ops.append(["set", k.to_bytes(ks, "big").hex(), v.hex()])
             keys.add(k)
         else:
             ops.append(["del", k.to_bytes(ks, "big").hex(), rnd.randrange(2)])
             keys.discard(k)
     return {"ks": ks, "default": default.hex(), "base": base.to_bytes(ks, "big").hex(), "ops": ops,
-            "pseed": rnd.randrange(1 << 30)}
+            "pseed": rnd.randrange(1 << 30), "reopen": rnd.random() < 0.4}
 
 
 def audit(smt, ref, m, default, ks, probes, ctx):
@@ -128,9 +146,13 @@ def run_case(case, ctx):
     mo = {}
     ctx.count("ks_%d" % ks)
     ctx.count("default_blank" if default == b"" else "default_nonblank")
-    for op in case["ops"]:
+    for opi, op in enumerate(case["ops"]):
         kb = unhx(op[1])
         k = int.from_bytes(kb, "big")
+        if case.get("reopen") and (case["pseed"] + opi) % 3 == 0:
+            # carry on through a second object opened on the same database and root
+            smt = cut(SparseMerkleTree.from_db, smt.db, smt.root_hash, key_size=ks, default=default)
+            ctx.count("reopened_through_from_db")
         if op[0] == "set":
             v = unhx(op[2])
             ctx.count("op_overwrite" if k in m else "op_set_new")
